@@ -40,7 +40,7 @@ RULE = (
     "a seed corpus of valid inputs, -runs budget, -seed derived from VERIF_SEED) with this same oracle inside the target: input = stream octets + chunk sizes (TCP) or datagram lengths (UDP) via FuzzedDataProvider; the reference splitter turns the stream into 'c20:' items + tail, Plan/deliver_tcp/deliver_udp judge that one chunking (after an unreadable header only exceptions / non-termination); each "
     "execution counts as one evaluation, it is non-trivial by the same rule (malformed frame followed by a valid one, or a chunk boundary inside a header, measured in the target), distinct by input hash"
 )
-FUZZ_RUNS = 300_000  # executions per campaign (thorough tier)
+FUZZ_RUNS = 200_000  # executions per campaign (thorough tier)
 ASSUMPTIONS = [
     "well-formedness of a frame is known by construction for generated valid frames and for the listed declared "
     "malformations; for frames from the C20 mutation space it is taken from a stand-alone parse of that frame "
